@@ -285,7 +285,7 @@ def parload_job(lens, stride=1, hint='none', atoms=None, frame_for=None):
                         bad.append('lengths-wrong')
                     if r2['forward'][1].shape != want.shape or not np.array_equal(r2['forward'][1], want):
                         bad.append('result-is-not-the-concatenation-in-file-order')
-                    if not np.array_equal(r2['forward'][1], r2['reverse'][1]):
+                    if not np.array_equal(r2['forward'][1], r2['reverse'][1]) or r2['reverse'][0] != tl:
                         bad.append('result-depends-on-task-order')
                     out['violated'] = bad
                     return out
